@@ -6,4 +6,4 @@ if [ ! -x "$VERIF_BUILD/vinstr" ] || [ "$VERIF_DIR/vinstr/main.go" -nt "$VERIF_B
   (cd "$VERIF_DIR/vinstr" && go build -o "$VERIF_BUILD/vinstr" .)
 fi
 rm -rf "$VERIF_BUILD/instr"
-"$VERIF_BUILD/vinstr" /repo "$VERIF_BUILD/instr" "$VERIF_DIR/harness/verifrt_src" > "$VERIF_BUILD/instr.log" 2>&1 || { cat "$VERIF_BUILD/instr.log" >&2; exit 2; }
+"$VERIF_BUILD/vinstr" "$VERIF_REPO" "$VERIF_BUILD/instr" "$VERIF_DIR/harness/verifrt_src" > "$VERIF_BUILD/instr.log" 2>&1 || { cat "$VERIF_BUILD/instr.log" >&2; exit 2; }
